@@ -104,6 +104,9 @@ def recall_case(res, rng, fam, metric, cfg, n):
         Qd = api.unsort_csr(rng, Qd.tocsr())            # the same queries with their columns listed out of order
     qi, qdst = idx.query(Qd, k=k)
     qr = recall_by_distance(DQ, kthq, qi)
+    # the graph the index exposes once it has served queries is the graph it built (the floor is about the index, not about the
+    # moment it is read): an in-place step of prepare() that truncates the lists shows here
+    gr = min(gr, recall_by_distance(D, kth, idx.neighbor_graph[0]))
     res.case(("recall", fam, metric, n, tuple(sorted(cfg.items()))), True,
              sample={**case, "graph_recall": round(gr, 4), "query_recall": round(qr, 4)})
     res.count("recall_cases"); res.traces += 1
